@@ -188,6 +188,40 @@ CLAIMED = {
             "single-producer channel is lock-step + monitor only. Trusts: Coq kernel; extraction + driver; rt/rt.c, rt/t1.c (given C01, C02); SC "
             "interleaving; single-waiter discipline of signals as a hypothesis on programs.",
             "DESIGN.md 6 C11, 12.3"),
+    "C04": ("Coq invariant over the T1K model with client Join.v (detach_state exchanges, join_info mailbox, result slots, done_fiber reclamation) + "
+            "refutation witnesses for the residual races; lock-step trace correspondence on the T1 machine with quarantined frees",
+            "Machine-checked over every reachable state (one target, any number of joiner/try-joiner/detacher fibers, any programs, any schedule, either "
+            "side arriving first or mid context-switch): every successful join/tryjoin returns after the target's result store and yields exactly that "
+            "value, under the single hypothesis that excludes known finding F-C04c; at most one success under the same hypothesis; a join/tryjoin that "
+            "starts after a completed detach fails; the target is reclaimed at most once, only when DONE with its result stored and joined or detached. "
+            "The residual races of the join protocol are machine-checked refutations with witnesses that replay on the real code and are listed as "
+            "known findings F-C04b (operation overlapping the release touches the freed fiber), F-C04c (second join takes the sleeping joiner), F-C04d "
+            "(join overwrites DETACHED), F-C04e (detach and finishing target both consume join_info). F-C04a was repaired (4ff1f32). Tied to /repo by "
+            "per-access lock-step of fiber.c + fiber_manager.c.",
+            "Partial: the positive statement 'nothing touches the fiber after reclaim when handles are used by one client at a time' is only proved in a "
+            "weaker form (after the free the target never runs again and no waker is mid-sequence on it) and otherwise covered by the monitor. Trusts: "
+            "Coq kernel; extraction + driver; rt/rt.c, rt/t1.c (given C01/C02); free() of the target replaced by a quarantine event; SC; -O0.",
+            "DESIGN.md 6 C04, 12.3, 12.6"),
+    "C07": ("Coq invariant over the T1K model with client Rwlock.v (packed 64-bit word as four 21-bit fields, two waiter lists) with an existential ghost "
+            "role assignment; lock-step trace correspondence on the T1 machine",
+            "Machine-checked over every reachable state (any mix of rdlock/wrlock/tryrdlock/trywrlock/unlock programs, any schedule, fewer than 2^21 "
+            "participants as the header states): a writer in its critical section excludes every other writer and every reader; the four fields equal the "
+            "counts of owners/handed/waiting fibers; a releasing CAS that leaves waiters transfers ownership in that CAS to exactly one waiting writer or "
+            "to all waiting readers and then wakes exactly that many; nobody blocked on a lock that nobody owns or has been handed; try variants contain no "
+            "wait and succeed only when legal; one consumer across both waiter lists; pack/unpack round trip and no carry between fields. Tied to /repo by "
+            "per-access lock-step of fiber_rwlock.c + fiber_manager.c.",
+            "Trusts: Coq kernel; extraction + driver; rt/rt.c, rt/t1.c (given C01/C02); SC; -O0. Word values >= 2^40 print opaquely in the trace (both "
+            "sides), the monitor reconstructs the counts from the events. Beyond 2^21 participants the fields wrap (rw_overflow_refuted; documented limit).",
+            "DESIGN.md 6 C07"),
+    "C12": ("Coq invariant (BarrierInv.v) over the T1K model with client Barrier.v (two waiter lists by round parity); lock-step trace correspondence on "
+            "the T1 machine",
+            "Machine-checked over every reachable state of the repaired protocol (exactly `count` fibers, any count >= 1, any number of consecutive rounds, "
+            "any schedule): no fiber returns from its k-th wait before count fibers entered their k-th wait; exactly one serial fiber per round; at most "
+            "one fiber in any pop loop; at quiescence every fiber returned from every round. The original one-list protocol is kept as a refuted "
+            "regression (barrier_round_safety_one_list_refuted); more participants than count is outside the property's setting and documented "
+            "(barrier_more_participants_refuted). Tied to /repo by per-access lock-step of fiber_barrier.c + fiber_manager.c.",
+            "Trusts: Coq kernel; extraction + driver; rt/rt.c, rt/t1.c (given C01/C02); SC; -O0.",
+            "DESIGN.md 6 C12, 12.3"),
 }
 
 NOT_YET = "model and proof not built yet in this development (see DESIGN.md 6 for the plan); not claimed until a check exists"
